@@ -2,7 +2,7 @@
      wrapper/transaction.py   __aexit__ (try / finally close), Transaction.commit / rollback over all backends
      backends/transaction.py  LockTransactionBackend._lock_updates, commit / rollback (try / finally unlock), _unlock_updates
    Every underlying backend command carries a position in the command trace; positions in `faults` raise and have no
-   effect.  Body commands: set, incr, delete, set_many, get on one of the backends.  Definitions only. *)
+   effect.  Body commands: set, incr, delete, set_many, get, expire on one of the backends.  Definitions only. *)
 From Cashews Require Import Base.Prelude Spec.TTLMap Model.Tags Model.Txn.
 Open Scope string_scope.
 Open Scope list_scope.
@@ -54,7 +54,8 @@ Fixpoint acquire_all (md : mode) (now : Z) (w : world) (i : nat) (ks : list key)
   | k :: r => let '(w1, ok) := acquire md now w i k in if ok then acquire_all md now w1 i r else (w1, false)
   end.
 
-Inductive bcmd := BSet (k : key) (v : val) (ttl : Z) | BIncr (k : key) | BDel (k : key) | BSetMany (kvs : list (key * val)) | BGet (k : key).
+Inductive bcmd := BSet (k : key) (v : val) (ttl : Z) | BIncr (k : key) | BDel (k : key) | BSetMany (kvs : list (key * val)) | BGet (k : key)
+  | BExpire (k : key) (ttl : Z).
 Definition with_overlay (x : txb) (t : txn) : txb := {| bB := bB x; bL := tL t; bD := tD t; bLocks := bLocks x |}.
 Definition overlay_step (w : world) (i : nat) (now : Z) (c : tcmd) : world :=
   let x := get_b w i in put_b w i (with_overlay x (fst (tx_step [] (as_txn x) now c))).
@@ -81,6 +82,16 @@ Definition body_step (md : mode) (now : Z) (w : world) (i : nat) (c : bcmd) : wo
       let x := get_b w i in
       if mems k (bD x) || isSome (s_look (bL x) now k) then (w, true)
       else under w i (fun b => b)
+  | BExpire k ttl =>
+      (* LockTransactionBackend.expire: lock, then the overlay is re-timed; the store is read (get) only when the overlay has no
+         live entry and no pending delete, and its value - if any - is copied into the overlay with the new TTL *)
+      let '(w1, ok) := acquire md now w i k in
+      if negb ok then (w1, false)
+      else let x := get_b w1 i in
+           if negb (isSome (s_look (bL x) now k)) && negb (mems k (bD x))
+           then let '(w2, ok2) := under w1 i (fun b => b) in
+                if ok2 then (overlay_step w2 i now (TC (Expire k ttl)), true) else (w2, false)
+           else (overlay_step w1 i now (TC (Expire k ttl)), true)
   end.
 Fixpoint body (md : mode) (now : Z) (w : world) (cs : list (nat * bcmd)) : world * bool :=
   match cs with
